@@ -137,9 +137,9 @@ def run(ctx):
                                L.loc, derived=underJ)
                     rfin = T.to_term(L.carried[restart_name][2])
                     reach = CMP("eq", T.resimplify(T.assume(cfin, {C: True})), op("len", primary))
-                    reach_s = [x for x in T.subterms(rfin) if fname(x) == "eq" and csym in x.free_symbols]
-                    okre = len(reach_s) >= 1 and all(T.equivalent(x, reach) == T.Verdict.EQUAL for x in reach_s)
-                    stays = T.resimplify(T.assume(rfin, {**{x: False for x in reach_s}, J: True})) if okre else None
+                    reach_s = [x for x in T.subterms(rfin) if fname(x) in ("eq", "ne") and csym in x.free_symbols]
+                    okre = len(reach_s) >= 1 and all(T.equivalent(CMP("eq", *x.args), reach) == T.Verdict.EQUAL for x in reach_s)
+                    stays = T.resimplify(T.assume(rfin, {**{x: (fname(x) == "ne") for x in reach_s}, J: True})) if okre else None
                     ctx.expect(okre and stays == TRUE_T, "R20.2", "integrate[high order needs a full stencil of constant steps]",
                                "the restart flag is cleared only when the updated count equals the width of the requested stencil, "
                                "and stays set on a jittered step otherwise", L.loc, derived=str([T.show(x, 80) for x in reach_s]),
